@@ -435,6 +435,16 @@ partial def loop (h : IO.FS.Stream) (out : IO.FS.Stream) (hist : Option HistStat
     | none => out.putStrLn "bad-op"
     | some st => out.putStrLn (((xliqLine st rest).getD "bad-op") ++ " | " ++ digest st)
     loop h out hist bm dyn snap
+  | "H" :: "xrepo" :: rest =>
+    match hist with
+    | none => out.putStrLn "bad-op"
+    | some st => out.putStrLn (((xrepoLine st rest).getD "bad-op") ++ " | " ++ digest st)
+    loop h out hist bm dyn snap
+  | "H" :: "xliqt" :: rest =>
+    match hist with
+    | none => out.putStrLn "bad-op"
+    | some st => out.putStrLn (((xliqtLine st rest).getD "bad-op") ++ " | " ++ digest st)
+    loop h out hist bm dyn snap
   | "H" :: "xpos" :: rest =>
     match hist with
     | none => out.putStrLn "bad-op"
